@@ -888,6 +888,54 @@ pub fn run_c14(ctx: &Ctx, st: &mut Local) {
         e.exhaustive = !capped;
     }
 
+    // (3b) argspace: the same argument bytes at every address alignment (a result may depend on the bytes of an
+    // argument, not on where the caller keeps them)
+    let name = "argspace";
+    if ctx.engine_on(name) {
+        let shifts: usize = if ctx.quick() { 16 } else { 64 };
+        // (call id, blob index); the digests are those of `call`
+        let targets: [(usize, usize); 8] = [(0, B_FSMALL), (1, B_FPNG), (3, B_S1), (4, B_S1), (6, B_FSMALL), (7, B_Z), (8, B_FBIG), (9, B_SBIG)];
+        let mut idx = 0u64;
+        for &(id, bi) in &targets {
+            for shift in 0..shifts {
+                let i = idx;
+                idx += 1;
+                if ctx.sel.mine(i) {
+                    count(ctx, name, st, i);
+                }
+                if !ctx.take(name, i) {
+                    continue;
+                }
+                let src = &inp.blobs[bi];
+                let mut buf = vec![0xa5u8; src.len() + 192];
+                let base = buf.as_ptr() as usize;
+                let off = (64 - base % 64) % 64 + shift;
+                buf[off..off + src.len()].copy_from_slice(src);
+                let arg = &buf[off..off + src.len()];
+                st.sample(name, || format!("#{} {} with the argument at address = {} mod 64", i, CALL_NAMES[id], shift));
+                ctx.begin(name, i, 120_000);
+                let d = match id {
+                    0 | 1 | 8 => dres(caught(|| s.expand(arg))),
+                    3 | 9 => dsplit(caught(|| s.decompress(arg, true))),
+                    4 => dsplit(caught(|| s.decompress(arg, false))),
+                    6 => dres(caught(|| s.compress_zstd(arg))),
+                    7 => dres(caught(|| s.decompress_zstd(arg, 1 << 20))),
+                    _ => unreachable!(),
+                };
+                ctx.end();
+                if d != seq[id] {
+                    st.violation(ctx.viol(name, i, "argument-address-dependent-result", None,
+                        format!("{} gives a different result when its argument lies at an address = {} mod 64 than for the same bytes in a fresh Vec", CALL_NAMES[id], shift), &[]));
+                } else {
+                    st.outcome(name, "same-for-every-alignment");
+                }
+            }
+        }
+        let e = st.eng(name);
+        e.bound = format!("8 calls x the argument placed at each of {} consecutive addresses (all residues mod {}), compared with the sequential digest", shifts, shifts);
+        e.exhaustive = true;
+    }
+
     // (4) free-running stress (sampling; supplementary): all workers start the same call at the
     // same moment (barrier) so that executions of the same code overlap as much as possible
     let name = "stress(sampled)";
@@ -922,6 +970,59 @@ pub fn run_c14(ctx: &Ctx, st: &mut Local) {
         } else {
             *st.eng(name).outcomes.entry("concurrent-equals-sequential".into()).or_insert(0) += 1;
         }
+    }
+
+    // (5) gianthist (last: the 1 GiB allocation changes the allocator's thresholds for whatever follows): one call on a stream with more than 1 GiB of plaintext that the analysis gives up on, then
+    // ordinary calls on the same thread and on a new thread (byte-counted global state, error paths)
+    let name = "gianthist";
+    if ctx.engine_on(name) {
+        let i = 0u64;
+        if ctx.sel.mine(i) {
+            count(ctx, name, st, i);
+        }
+        if ctx.take(name, i) {
+            use crate::model::*;
+            let mut toks: Vec<Tok> = std::iter::repeat(Tok::Lit(0)).take(9000).collect();
+            toks.push(Tok::Ref { len: 258, dist: 9000, irr: false });
+            let n = (1100usize << 20) / 258;
+            toks.extend(std::iter::repeat(Tok::Ref { len: 258, dist: 1, irr: false }).take(n));
+            let giant = serialise(&Stream { blocks: vec![Block::Fixed { toks }], final_pad: 0 });
+            st.sample(name, || format!("#0 decompress({} byte stream, {} MiB of plaintext), then 8 ordinary calls", giant.len(), (9000 + 258 * (n + 1)) >> 20));
+            ctx.begin(name, i, 900_000);
+            let after = [0usize, 3, 6, 8, 1, 9, 7, 12];
+            let (outcome, bad) = std::thread::scope(|sc| {
+                sc.spawn(|| {
+                    let outcome = match caught(|| s.decompress(&giant, false)) {
+                        Ok(Ok(r)) => format!("accepted ({} plaintext bytes)", r.plain.len()),
+                        Ok(Err(e)) => format!("Err: {}", crate::props_stream::first_line(&e.msg)),
+                        Err(p) => format!("panic at {}", p.loc),
+                    };
+                    let mut bad = Vec::new();
+                    for &c in &after {
+                        if call(s, c, &inp) != seq[c] {
+                            bad.push(c);
+                        }
+                    }
+                    (outcome, bad)
+                })
+                .join()
+                .unwrap_or(("thread died".into(), vec![0]))
+            });
+            // and once more from a new thread (process-wide state)
+            let bad2: Vec<usize> = std::thread::scope(|sc| sc.spawn(|| after.iter().cloned().filter(|&c| call(s, c, &inp) != seq[c]).collect()).join().unwrap_or(vec![0]));
+            ctx.end();
+            st.eng(name).notes.push(format!("the giant call ends with: {}", outcome));
+            if !bad.is_empty() || !bad2.is_empty() {
+                st.violation(ctx.viol(name, i, "history-dependent-result", None,
+                    format!("after one decompress_deflate_stream call on a stream with 1.1 GiB of plaintext ({}), these calls differ from their fresh results: same thread {:?}, new thread {:?}", outcome,
+                        bad.iter().map(|&c| CALL_NAMES[c]).collect::<Vec<_>>(), bad2.iter().map(|&c| CALL_NAMES[c]).collect::<Vec<_>>()), &[]));
+            } else {
+                st.outcome(name, "history-independent");
+            }
+        }
+        let e = st.eng(name);
+        e.bound = "one history: a call on a 7 MB stream with 1.1 GiB of plaintext, then 8 ordinary calls on the same thread and the same 8 on a new thread".into();
+        e.exhaustive = true;
     }
 }
 
